@@ -141,12 +141,12 @@ fn streams(name: String, params: Value) -> Scenario {
 /// A publish abandoned between its first poll (the request is queued) and the moment run() takes the
 /// request: the PUBLISH goes out all the same, its late acknowledgement is absorbed and frees the slot -
 /// afterwards exactly R further publishes are accepted and the next one is refused.
-fn abandoned_queued(name: String, params: Value) -> Scenario {
+pub fn abandoned_queued(prop: &'static str, name: String, params: Value) -> Scenario {
     Box::new(move |chz, ex| {
         let r = 1 + chz.choose(3) as u16;
         let (q, reason) = [(1u8, 0u8), (1, 0x10), (1, 0x80), (2, 0x80), (2, 0x97)][chz.choose(5)];
         let others_first = chz.choose(2) == 1;
-        let mut sys = Sys::new("C15", &name, chz);
+        let mut sys = Sys::new(prop, &name, chz);
         sys.params = params.clone();
         sys.m.check_client_acks = false;
         sys.bring_up(receive_max(r));
@@ -182,7 +182,7 @@ fn abandoned_queued(name: String, params: Value) -> Scenario {
 
 pub fn scenario(name: &str, params: &Value) -> Scenario {
     if name == "C15/abandoned-queued" {
-        return abandoned_queued(name.to_string(), params.clone());
+        return abandoned_queued("C15", name.to_string(), params.clone());
     }
     if name == "C15/streams" {
         return streams(name.to_string(), params.clone());
